@@ -3,7 +3,8 @@ pid=sys.argv[1]
 p=json.load(open('/tmp/prop_%s.json'%pid))
 needs=json.load(open('/verif/tools/seed_needs.json'))
 used=[v for k,v in needs.items() if k.startswith(pid+'-')]
-wt='/tmp/wt2_%s'%pid
+import os
+wt='/tmp/wt%s_%s'%(os.environ.get('R','3'),pid)
 print(f"""You are helping to evaluate how good a verification effort is, by writing realistic *seeded defects* for a Python library.
 
 Work ONLY inside the git worktree {wt} (a checkout of the library CogniPilot/cyecca: CasADi-based symbolic Lie groups, attitude estimators, quadrotor models, C code generation). Do not read, list or modify anything under /repo or /verif, and do not look for other people's verification code anywhere — your work must be independent. Python to use: /venv/bin/python (has casadi, numpy, scipy, sympy, simpy, mpmath, pytest). There is no network. Set the environment variable MPLBACKEND=Agg when importing cyecca.models or cyecca.estimate modules.
